@@ -710,6 +710,57 @@ func runC07(w *World, r *Report) {
 	r.Rule("C07.static-values-typed", "a static value set on a node is type-checked against the node's input type at Compile, like a mapping whose source type is the value's (shared with C15): both types are known and concrete when the workflow is declared", 1)
 	staticValuesTypeChecked(w, r, "C07.static-values-typed")
 
+	r.Rule("C07.branch-checks-all-handed-over", "the table of run-time checks in front of branch conditions the runner gets is the builder's own table, or a copy made by ranging over that table: every start node that has checks — START included, which is not among the graph's nodes — keeps them", 1)
+	{
+		gc := w.Fn("compose", "graph.compile")
+		fHPB := w.Field("compose", "graph", "handlerPreBranch")
+		fH := w.Field("compose", "preBranchHandlerManager", "h")
+		n := 0
+		for _, fw := range fieldWrites(gc) {
+			if !sameField(fw.field, fH) {
+				continue
+			}
+			n++
+			good, det := false, "the table is neither the builder's nor a copy ranged over it"
+			if isLoadOfField(fw.val, fHPB) {
+				good = true
+			} else if mk, ok := fw.val.(*ssa.MakeMap); ok {
+				all, any := true, false
+				for _, ref := range *mk.Referrers() {
+					mu, ok := ref.(*ssa.MapUpdate)
+					if !ok || mu.Map != ssa.Value(mk) {
+						continue
+					}
+					any = true
+					inRange := false
+					for _, li := range naturalLoops(gc) {
+						if !li.body[mu.Block()] {
+							continue
+						}
+						for _, in := range li.header.Instrs {
+							if nx, ok := in.(*ssa.Next); ok {
+								if rg, ok := nx.Iter.(*ssa.Range); ok && isLoadOfField(rg.X, fHPB) {
+									inRange = true
+								}
+							}
+						}
+					}
+					if !inRange {
+						all = false
+					}
+				}
+				good = any && all
+				if !good {
+					det = "the copy is filled while ranging over something else than the builder's table (the graph's nodes: START is not one of them)"
+				}
+			}
+			r.Check(good, "C07.branch-checks-all-handed-over", "graph.compile hands the runner every pre-branch check", fw.in.Pos(), "g.handlerPreBranch itself, or a copy ranged over it", det+": a branch attached to START loses its interface-to-concrete check — on NewGraph[any, …] with AddBranch(START, cond[string]) an int input reaches the condition and the panic 'unexpected input type' escapes a top-level Invoke instead of the ordinary 'runtime type check fail' error")
+		}
+		if n == 0 {
+			undecidedf("C07.branch-checks-all-handed-over: graph.compile does not build a preBranchHandlerManager")
+		}
+	}
+
 	r.Rule("C07.getters-pure", "no get… / is… / input… / output… method of the builder types (graph, graphNode, composableRunnable, genericHelper, Chain, Workflow) stores into its receiver: what they answer follows later type inference", 5)
 	{
 		n := 0
